@@ -199,7 +199,10 @@ def collect_variants(n, seed):
     # long_chains (mmCIF only): author chain names of two characters, as chains cut from large assemblies have - such
     # a table does not fit the PDB limits as it is and has to be renamed on its way to a PDB file
     strat = st.fixed_dictionaries({"file": st.sampled_from(sorted(tables)), "ext": st.sampled_from(["pdb", "cif"]),
-                                   "mods": st.lists(mod, min_size=1, max_size=5), "long_chains": st.booleans()})
+                                   "mods": st.lists(mod, min_size=1, max_size=5), "long_chains": st.booleans(),
+                                   # mmCIF only: optional atom_site items left out (minimal files of modelling tools)
+                                   "drop_items": st.lists(st.sampled_from(["label_alt_id", "pdbx_PDB_ins_code", "pdbx_formal_charge", "type_symbol", "occupancy", "B_iso_or_equiv"]),
+                                                          max_size=5, unique=True)})
     got = []
 
     @hypothesis.seed(seed)
@@ -228,7 +231,8 @@ def collect_variants(n, seed):
         if c.get("long_chains") and c["ext"] == "cif":
             for a in atoms:
                 a["chain"] = a["chain"] + a["chain"].lower() + "x"
-        text = atomtab.emit_pdb(atoms) if c["ext"] == "pdb" else atomtab.emit_cif(atoms)
+        drop = [d for d in c.get("drop_items", []) if not (d == "pdbx_PDB_ins_code" and any(a["icode"] for a in atoms))]
+        text = atomtab.emit_pdb(atoms) if c["ext"] == "pdb" else atomtab.emit_cif(atoms, dialect={"drop": drop} if drop else None)
         out.append((c, text))
     return out
 
